@@ -50,13 +50,13 @@ theorem ptr_none {l : List (Nat × Option Nat)} {gid : Nat} (h : ∀ x ∈ l, x.
   have := ptr_skip (pre := l) (old := []) h
   simpa [ptr] using this
 
-theorem InvCore.regionQ {L : Live} {ever : List AreaT} {r : Rec} (h : InvCore L ever r) :
+theorem InvCore.regionQ {S : Prop} {L : Live} {ever : List AreaT} {r : Rec} (h : InvCore S L ever r) :
     ∀ a ∈ r.regions, QueryOK a.loc :=
   fun a ha => (h.areasOK a (h.liveEver a (regions_sub_registered r a ha))).1
 
 /-- a region-class collection the gene is passed to through the registered collections is one of the record's
     regions and contains the gene -/
-theorem InvCore.region_of_down {L : Live} {ever : List AreaT} {r : Rec} (h : InvCore L ever r) {g : Gene}
+theorem InvCore.region_of_down {S : Prop} {L : Live} {ever : List AreaT} {r : Rec} (h : InvCore S L ever r) {g : Gene}
     {d : AreaT} {s : Section} (hd : (d, s) ∈ downAll g (registered r)) (hk : d.kind = .region) :
     d ∈ r.regions ∧ containedBy g.loc d.loc = true := by
   obtain ⟨a, ha, hc, hda⟩ := (mem_downAll g _ _).1 hd
@@ -94,8 +94,8 @@ theorem addCds_ok {r r' : Rec} {g : Gene} (h : addCds r g = .ok r') :
         injection h with h
         exact ⟨rfl, rfl, h.symm⟩
 
-theorem Inv.addCds {L : Live} {ever : List AreaT} {r r' : Rec} (h : Inv L ever r) (g : Gene) (hg : LocOK g.loc)
-    (hstep : addCds r g = .ok r') : Inv (L.step (.cds g)) ever r' := by
+theorem Inv.addCds {S : Prop} {L : Live} {ever : List AreaT} {r r' : Rec} (h : Inv S L ever r) (g : Gene) (hg : LocOK g.loc)
+    (hstep : addCds r g = .ok r') : Inv S (L.step (.cds g)) ever r' := by
   obtain ⟨hloc, hname, hr'⟩ := addCds_ok hstep
   have eff := linkCdsToParent_eff { r with genes := ins r.genes g, cdsCacheDirty := true } g
   generalize hr1 : linkCdsToParent { r with genes := ins r.genes g, cdsCacheDirty := true } g = r1 at eff hr'
@@ -187,16 +187,16 @@ theorem Inv.addCds {L : Live} {ever : List AreaT} {r r' : Rec} (h : Inv L ever r
       rcases (hgenes g').1 hg' with hg' | rfl
       · exact (eff.sections _).2 (Or.inl (c.sectionsComplete g' hg' d s hl))
       · exact (eff.sections _).2 (Or.inr ⟨(g', d, s), (hP _).2 ⟨rfl, hl⟩, rfl⟩)
-    · intro x hx
+    · intro hS x hx
       rcases (eff.defs x).1 hx with hx | ⟨t, ht, hdf, rfl⟩
-      · obtain ⟨g', hg', d, hl, hdf, e⟩ := c.defsSound x hx
+      · obtain ⟨g', hg', d, hl, hdf, e⟩ := c.defsSound hS x hx
         exact ⟨g', (hgenes g').2 (Or.inl hg'), d, hl, hdf, e⟩
       · obtain ⟨e, hl⟩ := (hP t).1 ht
         exact ⟨g, (hgenes g).2 (Or.inr rfl), t.2.1, ⟨t.2.2, hl.mono hever⟩, by rw [← e]; exact hdf, by rw [e]⟩
-    · intro g' hg' d hl hdf
+    · intro hS g' hg' d hl hdf
       rw [hreg] at hl
       rcases (hgenes g').1 hg' with hg' | rfl
-      · exact (eff.defs _).2 (Or.inl (c.defsComplete g' hg' d hl hdf))
+      · exact (eff.defs _).2 (Or.inl (c.defsComplete hS g' hg' d hl hdf))
       · obtain ⟨s, hs⟩ := hl
         exact (eff.defs _).2 (Or.inr ⟨(g', d, s), (hP _).2 ⟨rfl, hs⟩, hdf, rfl⟩)
     · obtain ⟨pre, e, hpre⟩ := eff.regionOf
